@@ -523,7 +523,7 @@ func genConvertScenario(c *gctx) {
 func genRedefineScenario(c *gctx, strict bool) {
 	r := c.r
 	c.noSub = strict || r.chance(60)
-	c.noIface = strict || r.chance(70)
+	c.noIface = (strict && r.chance(70)) || (!strict && r.chance(70))
 	nameTy := map[string]int{}
 	fix := func(fs []Field) []Field {
 		// each name denotes a single type
